@@ -1,5 +1,7 @@
 import OrixProofs.Lemmas.NDArray
 import OrixProofs.Lemmas.NDArrayObj
+import OrixProofs.Lemmas.NDArrayObjWF
+import OrixProofs.Lemmas.NDArrayPerm
 /-
 C16 — array-like objects have value semantics under structural operations.
 
@@ -407,6 +409,36 @@ theorem miller_neg_drops_metadata :
 theorem miller_squeeze_raises (E : ElemOps ε) (O : Obj ε) (h : O.cls = .miller) :
     O.step E .squeeze = .error .dimension := by
   simp [Obj.step, Obj.squeeze, h]
+
+/-! ## F. rearrangements are bijective; the model is total -/
+
+/-- reshape, squeeze, transpose and flatten lose nothing and duplicate nothing: the elements of the result are
+a permutation of the elements of the operand (for reshape and squeeze even the same C-order sequence) -/
+theorem rearrangement_perm {A B : NDArray α} (hw : A.WF) :
+    (∀ dims, NDArray.reshape dims A = .ok B → B.data = A.data) ∧
+    (NDArray.squeeze A).data = A.data ∧
+    (∀ e axes, NDArray.transpose e axes A = .ok B → B.data.Perm A.data) ∧
+    (NDArray.flatten A = .ok B → B.data.Perm A.data) :=
+  ⟨fun _ h => (reshape_index h).1, rfl, fun _ _ h => transpose_perm hw h, fun h => flatten_perm hw h⟩
+
+/-- Every step of a program maps a well-formed object (and well-formed stack operands) to a well-formed object
+or answers one of the modelled errors; the answer `internal` (a gather reaching outside its source) is
+impossible.  In particular the two separate calls by which orix moves data and flags always produce arrays of
+the same shape — also for negative axes, which numpy reads differently for the two arrays: then at least one
+of the calls raises. -/
+theorem step_total (E : ElemOps ε) {O : Obj ε} (hw : O.WF) (op : Op ε) (hop : op.WF) :
+    (∃ O', O.step E op = .ok O' ∧ O'.WF) ∨ (∃ e, O.step E op = .error e ∧ e ≠ .internal) :=
+  Obj.step_fine E hw op hop
+
+theorem run_total (E : ElemOps ε) (prog : List (Op ε)) (hp : ∀ op ∈ prog, op.WF) {O : Obj ε} (hw : O.WF) :
+    (∃ O', O.run E prog = .ok O' ∧ O'.WF) ∨ (∃ e, O.run E prog = .error e ∧ e ≠ .internal) :=
+  Obj.run_fine E prog hp hw
+
+/-- negative axes: if numpy accepts them both for the data array (component axis present) and for the flags
+array, they denote the same permutation (and then none of them is negative) -/
+theorem negative_axes_agree {nd : Nat} {ax : List Int} {p1 p0 : List Nat} (hl : ax.length = nd)
+    (h1 : normAxes nd 1 ax = .ok p1) (h0 : normAxes nd 0 ax = .ok p0) : p1 = p0 :=
+  normAxes_agree hl h1 h0
 
 /-! ## non-vacuity -/
 
